@@ -5,7 +5,9 @@ from . import c16_util as U
 
 RULE = ("APIs: apis.conventional extended with a recursive tree (nested, mutually recursive part, map entry, nested enum), a type "
         "shared by two RPCs, a nested type of one request named by another request, target files that hold only top-level enums "
-        "(one named from another file), only messages, only a service, resource references (type / child_type, "
+        "(one named from another file), only messages, only a service, chains of enclosing closure of depth 2 and 3 in both "
+        "declaration orders (a top-level message reached only as the encloser of a nested type, whose field names a nested type of "
+        "the next one), resource references (type / child_type, "
         "message-level and file-level), a second service and a third file that vanish, LRO and paged RPCs, streaming RPCs; a "
         "compute-style API with an extended-operation polling service (also with a polling chain that loops); an API using its own "
         "dependency package; the former DESIGN 9 no. 4 counterexample and the internal-polling one (corpus/C16, run first). Configurations: for each API subsets of RPC selectors (singletons, one "
@@ -125,6 +127,10 @@ def build_apis(ctx, n_random):
     r = env.rng("C16-ext", 0)
     out.append({"name": "extended", "req": U.extended_api(r), "transport": "rest", "knobs": {"extended_lro"}, "e2e": True})
     out.append({"name": "extended-cyclic", "req": U.extended_api(r, cyclic=True), "transport": "rest", "knobs": {"extended_lro", "polling_cycle"}, "e2e": False})
+    for depth, rev in ((3, True), (2, False), (3, False)):
+        rq = U.chain_api(depth, rev)
+        out.append({"name": f"chain{depth}{'r' if rev else 'f'}", "req": rq, "transport": "grpc", "knobs": {"enclosing_chain", f"chain_depth={depth}"},
+                    "e2e": rev or depth == 2 or ctx.tier != "quick", "invalid": rev, "first": [[U.target_package(rq) + ".Library.GetFoo"]]})
     try:
         req, knobs = U.dep_package_api(env.rng("C16-dep", 0))
         out.append({"name": "dep-package", "req": req, "transport": "grpc", "knobs": knobs, "e2e": False})
@@ -143,13 +149,14 @@ def build_apis(ctx, n_random):
                 ctx.oblige("the multi-file API (enums-only / messages-only / service-only target files) is a valid input", False, str(e)[:300], "T1")
             continue
         out.append({"name": "multifile" if i == -1 else f"conv{i}", "req": req, "transport": "grpc", "knobs": knobs, "e2e": True,
-                    "first": api.info.get("c16_subsets", [])})
+                    "first": [h for h in api.info.get("c16_subsets", []) if h and all(h)]})
     return out
 
 
 # ------------------------------------------------------------------ T2 + schema-level oracle
 def run_schema(ctx, items):
     """items: [{api, label, settings, intent}] — API.build vs model (T2) and the property's sentence on API.build's result."""
+    _t0 = __import__("time").time()
     d = gen.case_dir("c16yaml")
     payload = []
     for k, it in enumerate(items):
@@ -161,6 +168,7 @@ def run_schema(ctx, items):
     for idxs, res in zip(chunks, gen.pmap(lambda ix: gen.impl("selective", [payload[i] for i in ix]), chunks)):
         for i, o in zip(idxs, res):
             results[i] = o
+    ctx.notes.setdefault("schema_seconds", {})["impl"] = round(__import__("time").time() - _t0, 1)
     # group by API so that each cases file carries only the graphs it needs; the model's outcome of a case is
     # computed once (a let in the check's term) and shared by the comparisons of that case
     by_api = {}
@@ -187,6 +195,7 @@ def run_schema(ctx, items):
                     first_sel = False
                 schema_oracle(ctx, api, it, obs)
         jobs.append((f"c16t2_{bi}", U.COQ_DEFS + "\n".join(shared.values()) + "\n" + "\n".join(defs), checks))
+    ctx.notes["schema_seconds"]["terms"] = round(__import__("time").time() - _t0, 1)
     all_failing, nchecks = [], 0
     for (tag, defs, checks), (failing, errors, nfiles) in zip(jobs, gen.pmap(lambda j: coq.eval_checks(j[0], IMPORTS, j[1], [c[:2] for c in j[2]], chunk=100000), jobs)):
         nchecks += sum(c[2] for c in checks)
@@ -199,6 +208,8 @@ def run_schema(ctx, items):
     ctx.oblige(f"T2 model = API.build on {len(items)} (API, settings) cases: outcome, per-proto messages/enums/top-level/services/methods, "
                f"internal marks and client names, allow-list, validation errors ({nchecks} comparisons)",
                not all_failing and nchecks > 0, "; ".join(all_failing[:8]))
+    ctx.notes["schema_seconds"]["coq"] = round(__import__("time").time() - _t0, 1)
+    ctx.notes["schema_seconds"]["files"] = len(jobs)
     ctx.notes["t2_checks"] = nchecks
     ctx.notes["t2_disagreements"] = all_failing[:20]
     return all_failing
@@ -332,6 +343,11 @@ def schema_oracle(ctx, api, it, obs):
         ctx.violation(f"services after API.build differ: {sorted(have_services ^ exp_services)[:6]}", case)
     if exp_types - have_types:
         ctx.violation(f"types reachable from the kept RPCs are missing after API.build: {sorted(exp_types - have_types)[:8]}", case)
+    # a kept nested type only exists inside its outermost enclosing message: that message must be kept too
+    orphans = sorted(t for t in have_types if t in ref.kind and ref.parent.get(t) and ref.top(t) not in have_types)
+    if orphans:
+        ctx.violation(f"nested types are kept while their outermost enclosing message is pruned (they are never rendered): {orphans[:6]}",
+                      case, SIG_NESTED)
     if have_types - upper:
         ctx.violation(f"types of the target package that no kept RPC reaches survive API.build: {sorted(have_types - upper)[:8]}", case)
     # dependency packages untouched
@@ -682,11 +698,11 @@ def library_t1(ctx, lb, per_api_graph):
 def run(ctx):
     import time
     t0 = time.time()
-    apis_ = build_apis(ctx, ctx.n(5, 30))
+    apis_ = build_apis(ctx, ctx.n(3, 30))
     schema_items, libs = [], []
     for ai, api in enumerate(apis_):
         r = env.rng("C16-cfg", ai)
-        cfgs = configs_for(r, api["req"], ctx.n(4, 12), first=api.get("first", ()))
+        cfgs = configs_for(r, api["req"], ctx.n(4, 12), invalid=api.get("invalid", True), first=api.get("first", ()))
         for label, settings, intent in cfgs:
             schema_items.append({"api": api, "label": label, "settings": settings, "intent": intent})
         if api["e2e"]:
@@ -695,7 +711,9 @@ def run(ctx):
             bad = [c for c in cfgs if c[2] in ("unknown", "other_version", "dup")]
             nv, nb = ctx.n(4, 8), ctx.n(1, 2)
             if api["name"] in ("witness", "extended", "extended-cyclic"):
-                nv = 4
+                nv = ctx.n(2, 4)
+            if api["name"].startswith("chain"):
+                nv = 0
             nv += 2 * len(api.get("first", ()))
             for label, settings, intent in valid[:nv] + r.sample(bad, min(nb, len(bad))):
                 libs.append({"api": api, "label": label, "settings": settings, "intent": intent})
